@@ -2,6 +2,7 @@ import CC.Model.Prims
 import CC.Spec.Cover
 import CC.Model.Sym
 import CC.Model.Mac
+import CC.Model.Wire
 /-! # Line-protocol driver for the model
 
 One operation per input line, one canonical output line per input line. The Rust harness
@@ -409,6 +410,25 @@ def step (st : St) (line : String) : St × String :=
         match (policyOf p).bind m.structure_.encRights with
         | .error e => (st, errLine e)
         | .ok rs => (st, "ok " ++ rightsStr rs)
+  | ["wire", ty, cfg, a] =>
+    -- decode the serialised object, re-encode it: accepted? announced length? byte-exact round trip?
+    let c := if cfg == "p256" then Wire.cfgP256 else Wire.cfgC25519
+    match optBytes a with
+    | some (some bs) =>
+      let res : Option Wire.Bytes :=
+        match ty with
+        | "msk" => (Wire.deserialize (Wire.msk c) bs).map Wire.encMsk
+        | "mpk" => (Wire.deserialize (Wire.mpk c) bs).map Wire.encMpk
+        | "usk" => (Wire.deserialize (Wire.usk c) bs).map Wire.encUsk
+        | "enc" => (Wire.deserialize (Wire.xenc c) bs).map Wire.encXenc
+        | "hdr" => (Wire.deserialize (Wire.header c) bs).map Wire.encHeader
+        | "clr" => (Wire.deserialize Wire.clear bs).map Wire.encClear
+        | "struct" => (Wire.deserialize Wire.struct_ bs).map Wire.encStruct
+        | _ => none
+      match res with
+      | none => (st, "err Deserialize")
+      | some re => (st, "ok len=" ++ toString re.length ++ " rt=" ++ (if re = bs then "1" else "0"))
+    | _ => (st, "bad-op")
   | ["mac", cfg, a, b] =>
     -- would `refresh` accept the user key `b`, given that `a` was issued (bytes of both)?
     let c := if cfg == "p256" then Wire.cfgP256 else Wire.cfgC25519
